@@ -575,6 +575,11 @@ class GrpcWriter:
             self.detach("polite")
         if self.g is None:
             targets = ctx.live_targets()
+            if ctx.plan.get("no_grpc_on_restarted") and getattr(ctx, "t_kill", None):
+                # the restarted node gets no gRPC client of its own: its reconciliation messages stay empty
+                targets = [n for n in targets if n.id != ctx.plan["victim"]]
+                if self.want_node is not None and self.want_node.id == ctx.plan["victim"]:
+                    self.want_node = None
             if not targets:
                 return
             node = self.want_node if (self.want_node is not None and ctx.up.get(self.want_node.id)) else rnd.choice(targets)
@@ -1298,7 +1303,13 @@ def run_cluster(args):
         ctx.up[victim.id] = True
         ctx.join_times[victim.id] = time.time()
         segment(ctx, plan["seg_e"])
-        checkpoint(ctx, "healed", res)
+        cp_h = checkpoint(ctx, "healed", res)
+        if plan.get("late_look") and not res["violations"]:
+            # quiescence has to last: the owners flush their queued heartbeat copies every 15 s and the nodes exchange client
+            # digests every 12 s - whatever those carry must not bring back what the cluster had agreed on
+            time.sleep(16.5)
+            checkpoint(ctx, "healed", res)
+            res["mechanisms"].add("late-look-16s-after-agreement")
         with ctx.lock:
             res["counters"] = dict(ctx.counters)
             res["ops"] = len([r for r in ctx.history if r["op"] != "conn_gone"])
@@ -1350,6 +1361,7 @@ def make_plan(rnd, idx, tier):
         "down_s": round(rnd.uniform(20, 24) if kind == "outage" else rnd.uniform(4, 8), 1),
         "seg_a": round(rnd.uniform(5, 7), 1), "seg_b": round(rnd.uniform(4, 6), 1), "seg_c": round(rnd.uniform(5, 7), 1),
         "seg_e": round(rnd.uniform(4, 6), 1), "http_clients": 3, "grpc_clients": 4,
+        "late_look": True, "no_grpc_on_restarted": kind == "join" and idx % 4 < 2,
     }
 
 
